@@ -18,6 +18,7 @@ def applyD (look : Nat → Option Sim) (a : RunArgs) : Deriv → Option RunArgs
   | .nProcesses n => some { a with nProcesses := n }
   | .verbose b => some { a with verbose := b }
   | .timeout t => some { a with timeout := t }
+  | .progressBar b => some { a with progressBar := b }
   | .runtime r => some { a with runtime := r }
   | .errorModel e => some { a with errorModel := e }
   | .eventHook h => some { a with eventHook := h }
@@ -26,7 +27,52 @@ def applyD (look : Nat → Option Sim) (a : RunArgs) : Deriv → Option RunArgs
   | .coinflip => some { a with simKind := .coinflip, simSeed := none }
   | .stabilizer => some { a with simKind := .stim, simSeed := none }
 
-/-- every instance refers to a live simulator object -/
-def WF (s : State) : Prop := ∀ c ∈ s.insts, c.sim < s.heap.length
+/-- effect of a builder method on by-value build arguments -/
+def applyB (a : BuildArgs) : BDeriv → BuildArgs
+  | .name v => { a with name := v }
+  | .buildDir v => { a with buildDir := v }
+  | .verbose x => { a with verbose := x }
+  | .buildArg k v => { a with custom := dictSet k v a.custom }
+
+/-- run arguments of a freshly built instance: `_Options()` defaults, fresh Quest without seed -/
+def defaultArgs (n : Nat) : RunArgs :=
+  { simKind := .quest, simSeed := none, runtime := 0, errorModel := 0, eventHook := 0, nQubits := n,
+    shots := 1, verbose := false, timeout := none, seed := none, shotOffset := 0, shotIncrement := 1,
+    nProcesses := 1, progressBar := false }
+
+/-- every instance refers to a live simulator object and to an existing build-log entry -/
+def WF (s : State) : Prop :=
+  ∀ c ∈ s.insts, c.sim < s.heap.length ∧ ∀ o, c.origin = some o → o < s.blog.length
+
+/-- follow an instance derivation path starting at instance `i`; before every derivation any
+    other operations (`junk`: derivations from / runs of any instance or builder) may happen -/
+def chainD : State → Nat → List (List Op × Deriv) → Option (State × Nat)
+  | s, i, [] => some (s, i)
+  | s, i, (junk, d) :: rest =>
+    match runOps true s junk with
+    | none => none
+    | some s₁ =>
+      match step true s₁ (.derive i d) with
+      | none => none
+      | some s₂ => chainD s₂ s₁.insts.length rest
+
+/-- the same for a builder derivation path -/
+def chainB : State → Nat → List (List Op × BDeriv) → Option (State × Nat)
+  | s, i, [] => some (s, i)
+  | s, i, (junk, d) :: rest =>
+    match runOps true s junk with
+    | none => none
+    | some s₁ =>
+      match step true s₁ (.bderive i d) with
+      | none => none
+      | some s₂ => chainB s₂ s₁.builders.length rest
+
+/-- fold of an instance derivation path over by-value run arguments -/
+def foldD (look : Nat → Option Sim) : RunArgs → List Deriv → Option RunArgs
+  | a, [] => some a
+  | a, d :: ds =>
+    match applyD look a d with
+    | none => none
+    | some a' => foldD look a' ds
 
 end GuppyVerif.EmuConfig.Spec
